@@ -34,8 +34,8 @@ def run(prog, rep):
     rep.part(protocol, prog, rep)
     sub = _R(rep)
     rep.part(c09.intervals, prog, sub)
-    rep.expect_min("C14.bounds", 8)
-    rep.expect_min("C14.constraints", 2)
+    rep.expect_min("C14.bounds", 10)
+    rep.expect_min("C14.constraints", 3)
     rep.expect_min("C14.start", 4)
     rep.expect_min("C14.protocol", 7)
     rep.expect_min("C14.all", 1)
@@ -163,8 +163,16 @@ def bounds(prog, rep):
             if bd is None:
                 probs.append("cannot bind curve_fit arguments")
             else:
-                if (bd.get("f"), bd.get("xdata"), bd.get("ydata"), bd.get("p0")) != (P("func"), P("x"), P("y"), P("p0")):
-                    probs.append("curve_fit must receive (func, x, y, p0) in this order")
+                clip = ("call", G("numpy.clip"), (P("p0"), ("sub", conv, ("const", 0)), ("sub", conv, ("const", 1))), ())
+                p0s = set(alts(bd.get("p0", NONE)))
+                if (bd.get("f"), bd.get("xdata"), bd.get("ydata")) != (P("func"), P("x"), P("y")) or not p0s <= {P("p0"), clip} or not p0s:
+                    probs.append("curve_fit must receive (func, x, y, p0) in this order (p0 as given, or clipped into the converted bounds)")
+                if hb:
+                    # the start values come from the function's signature (1 where it has no default): outside the declared bounds
+                    # curve_fit refuses them ("x0 is infeasible") although the least-squares solution lies inside
+                    rep.check(clip in p0s, "C14.bounds", inst + ":start-feasible", fn.where(st), "p0 is clipped into the converted bounds",
+                              "with bounds the start values must be brought inside them (np.clip(p0, lower, upper)): the default start 1 outside a declared bound "
+                              "makes curve_fit raise ValueError 'x0 is infeasible' (bounds [(2, None), (None, None)] on a linear function)")
                 bt = bd.get("bounds")
                 if hb:
                     if bt is None:
@@ -244,6 +252,19 @@ def constrained(prog, rep):
             if k_ == ("const", "eps"):
                 eps = v_
     ok_eps = eps is None or (eps[0] == "const" and isinstance(eps[1], (int, float)) and eps[1] >= 1e-10)
+    # ... and stops on an ABSOLUTE tolerance of the objective (ftol, default 1e-6): the objective is an un-normalised sum of squares, so for
+    # dependence functions with small values (sigma of 0.1 .. 0.3) the default stops far from the optimum
+    ftol = None
+    if opts is not None and opts[0] == "dict":
+        for k_, v_ in opts[1]:
+            if k_ == ("const", "ftol"):
+                ftol = v_
+    tol_kw = bd.get("tol")
+    ok_tol = (ftol is not None and ftol[0] == "const" and isinstance(ftol[1], float) and ftol[1] <= 1e-9) or \
+             (tol_kw is not None and tol_kw[0] == "const" and isinstance(tol_kw[1], float) and tol_kw[1] <= 1e-9)
+    rep.check(ok_tol, "C14.constraints", f"{q}:tolerance", site, "the stopping tolerance is set explicitly (<= 1e-9)",
+              "SLSQP is left at its default ftol = 1e-6, an absolute tolerance on the un-normalised sum of squares: for y between 0.1 and 0.3 the constrained fit "
+              "reports success at a squared residual 110 times the attainable one (a 1 % change of one parameter still lowers it)")
     rep.check(ok_eps, "C14.constraints", f"{q}:step", site, "finite-difference step left to scipy (or >= 1e-10)",
               f"minimize is given options eps = {show(eps) if eps else None}: with a finite-difference step of that size the numerical gradient of the squared error "
               "is pure round-off, SLSQP stops where it started (or anywhere) and reports success - the result is not a least-squares solution")
